@@ -30,10 +30,126 @@ func propC06() *Property {
 	}
 }
 
-func isDupCall(in ssa.Instruction) *ssa.Call {
+// A replay lookup is either a direct (*ReplayCache).IsDuplicate(data, tag)
+// call or a call of a local helper that performs exactly one such lookup on
+// one of its parameters and returns its verdict (extracting the lookup and
+// its metric bump into a method is a plain refactoring). dupInfo gives the
+// caller-side view of both forms.
+type dupInfo struct {
+	Call  *ssa.Call // the instruction in the analysed function
+	Inner *ssa.Call // the IsDuplicate call itself (== Call for the direct form)
+	Buf   ssa.Value // caller-side buffer expression
+	Key   *ssa.Slice
+	TagIsSourceAddr bool
+}
+
+func isDirectDup(in ssa.Instruction) *ssa.Call {
 	cl, ok := in.(*ssa.Call)
 	if ok && strings.HasSuffix(calleeID(cl), "replay.ReplayCache).IsDuplicate") {
 		return cl
+	}
+	return nil
+}
+
+func tagIsAddrString(v ssa.Value) bool {
+	call, ok := v.(*ssa.Call)
+	return ok && call.Common().IsInvoke() && call.Common().Method.Name() == "String"
+}
+
+// dupHelperSummary: fn contains exactly one direct lookup whose data is a
+// (prefix of a) parameter, and every return of fn is that lookup's verdict
+// (the call's value, or the constant selected by branching on it).
+func dupHelperSummary(fn *ssa.Function) (inner *ssa.Call, dataIdx int, ok bool) {
+	if fn == nil || fn.Blocks == nil || relPkg(fn) != protoPkg || fn.Signature.Results().Len() != 1 {
+		return nil, 0, false
+	}
+	if bt, isB := fn.Signature.Results().At(0).Type().Underlying().(*types.Basic); !isB || bt.Kind() != types.Bool {
+		return nil, 0, false
+	}
+	n := 0
+	instrs(fn, func(_ *ssa.BasicBlock, _ int, in ssa.Instruction) {
+		if d := isDirectDup(in); d != nil {
+			n++
+			inner = d
+		}
+	})
+	if n != 1 {
+		return nil, 0, false
+	}
+	root := sliceRoot(inner.Common().Args[1])
+	dataIdx = -1
+	for i, prm := range fn.Params {
+		if ssa.Value(prm) == root {
+			dataIdx = i
+		}
+	}
+	if dataIdx < 0 {
+		return nil, 0, false
+	}
+	good := true
+	instrs(fn, func(b *ssa.BasicBlock, _ int, in ssa.Instruction) {
+		r, isRet := in.(*ssa.Return)
+		if !isRet {
+			return
+		}
+		v := retVal(r, 0)
+		if v == ssa.Value(inner) {
+			return
+		}
+		k, isK := v.(*ssa.Const)
+		if !isK || k.Value == nil {
+			good = false
+			return
+		}
+		want := k.Value.String() == "true"
+		okEdge := false
+		for _, ce := range controllingEdges(b) {
+			if ce.If.Cond == ssa.Value(inner) && (ce.Idx == 0) == want {
+				okEdge = true
+			}
+		}
+		if !okEdge {
+			good = false
+		}
+	})
+	return inner, dataIdx, good
+}
+
+func dupInfoOf(in ssa.Instruction) *dupInfo {
+	if d := isDirectDup(in); d != nil {
+		di := &dupInfo{Call: d, Inner: d, Buf: d.Common().Args[1], TagIsSourceAddr: tagIsAddrString(d.Common().Args[2])}
+		di.Key, _ = d.Common().Args[1].(*ssa.Slice)
+		return di
+	}
+	cl, ok := in.(*ssa.Call)
+	if !ok {
+		return nil
+	}
+	sc := cl.Common().StaticCallee()
+	inner, idx, ok := dupHelperSummary(sc)
+	if !ok || idx >= len(cl.Common().Args) {
+		return nil
+	}
+	di := &dupInfo{Call: cl, Inner: inner, Buf: cl.Common().Args[idx]}
+	di.Key, _ = inner.Common().Args[1].(*ssa.Slice)
+	// the tag: addr.String() computed in the helper from a parameter, or passed in
+	if tagIsAddrString(inner.Common().Args[2]) {
+		di.TagIsSourceAddr = true
+	} else {
+		for j, prm := range sc.Params {
+			if ssa.Value(prm) == inner.Common().Args[2] && j < len(cl.Common().Args) && tagIsAddrString(cl.Common().Args[j]) {
+				di.TagIsSourceAddr = true
+			}
+		}
+	}
+	return di
+}
+
+// isDupCall: the replay lookup (direct or through a verdict helper) as seen
+// from the analysed function.
+func isDupCall(in ssa.Instruction) *ssa.Call {
+	if di := dupInfoOf(in); di != nil {
+		return di.Call
 	}
 	return nil
 }
@@ -72,7 +188,8 @@ func r06_1(c *RC) {
 			c.Bad(key, fn.Pos(), "%s.readOneSegment never consults the replay cache", tn)
 			continue
 		}
-		buf := sliceRoot(dup.Common().Args[1])
+		di := dupInfoOf(dup)
+		buf := sliceRoot(di.Buf)
 		// every decrypt-ish call on the same buffer
 		var bad ssa.Instruction
 		n := 0
@@ -115,13 +232,13 @@ func r06_1(c *RC) {
 			c.OKH(key, dup.Pos(), "IsDuplicate(prefix of the received buffer) dominates all %d decrypt/discovery calls on that buffer", n)
 		}
 		// prefix length = cipher.DefaultOverhead
-		if sl, ok := dup.Common().Args[1].(*ssa.Slice); ok {
+		if sl := di.Key; sl != nil {
 			ov := p.Const("pkg/cipher", "DefaultOverhead")
 			k, isC := constInt(sl.High)
 			if ov != nil && isC && constant.Compare(constant.MakeInt64(k), token.EQL, ov.(*types.Const).Val()) && sl.Low == nil {
 				c.OK("lookup-key@"+tn, dup.Pos(), "key = first cipher.DefaultOverhead (%d) bytes", k)
 			} else {
-				c.Bad("lookup-key@"+tn, dup.Pos(), "the replay key is %s, not the first cipher.DefaultOverhead bytes of the ciphertext", describe(dup.Common().Args[1]))
+				c.Bad("lookup-key@"+tn, dup.Pos(), "the replay key is %s, not the first cipher.DefaultOverhead bytes of the ciphertext", describe(di.Inner.Common().Args[1]))
 			}
 		}
 	}
@@ -267,10 +384,10 @@ func r06_2(c *RC) {
 		c.OKH("packet-replay-never-accepted", dup.Pos(), "server + duplicate: no segment is returned before the next ReadFrom (%d path states)", ex.States)
 	}
 	// the tag of the packet lookup is the sender address (so that a genuine retransmission from the same address is not a replay)
-	if call, ok := dup.Common().Args[2].(*ssa.Call); ok && call.Common().IsInvoke() && call.Common().Method.Name() == "String" {
+	if dupInfoOf(dup).TagIsSourceAddr {
 		c.OK("packet-replay-tag", dup.Pos(), "tag = addr.String() of the datagram's source")
 	} else {
-		c.Bad("packet-replay-tag", dup.Pos(), "the packet replay lookup is not tagged with the datagram's source address: %s", describe(dup.Common().Args[2]))
+		c.Bad("packet-replay-tag", dup.Pos(), "the packet replay lookup is not tagged with the datagram's source address: %s", describe(dupInfoOf(dup).Inner.Common().Args[2]))
 	}
 }
 
@@ -329,14 +446,18 @@ func r06_5(c *RC) {
 	ov := p.Const("pkg/cipher", "DefaultOverhead")
 	for _, fn := range p.Funcs(protoPkg) {
 		instrs(fn, func(_ *ssa.BasicBlock, _ int, in ssa.Instruction) {
-			d := isDupCall(in)
-			if d == nil {
+			di := dupInfoOf(in)
+			if di == nil {
 				return
 			}
+			if _, _, isHelper := dupHelperSummary(fn); isHelper && di.Call == di.Inner {
+				return // judged at the helper's call sites
+			}
+			d := di.Call
 			key := "isduplicate@" + fnName(fn)
-			sl, ok := d.Common().Args[1].(*ssa.Slice)
-			if !ok {
-				c.Bad(key, d.Pos(), "replay key is not a prefix slice: %s", describe(d.Common().Args[1]))
+			sl := di.Key
+			if sl == nil {
+				c.Bad(key, d.Pos(), "replay key is not a prefix slice: %s", describe(di.Inner.Common().Args[1]))
 				return
 			}
 			k, isC := constInt(sl.High)
@@ -345,7 +466,7 @@ func r06_5(c *RC) {
 				return
 			}
 			// buffer filled from the network in this function: MakeSlice passed to ReadFull / ReadFrom, or result of decodeLowEntropyEncryptedPayload on such
-			root := sliceRoot(sl.X)
+			root := sliceRoot(di.Buf)
 			fromNet := false
 			for _, l := range Leaves(root, nil) {
 				if ex, ok := l.(*ssa.Extract); ok {
